@@ -480,6 +480,10 @@ func (errPropRenderer) RegisterFuncs(reg renderer.NodeRendererFuncRegisterer) {
 		if !entering {
 			return gast.WalkContinue, nil
 		}
+		if m, ok := w.(checkedMarker); ok {
+			m.checked(1)
+			defer m.checked(-1)
+		}
 		if _, err := w.WriteString("<hr class=\"own\">"); err != nil {
 			return gast.WalkStop, err
 		}
@@ -489,6 +493,10 @@ func (errPropRenderer) RegisterFuncs(reg renderer.NodeRendererFuncRegisterer) {
 		return gast.WalkContinue, nil
 	})
 	reg.Register(gast.KindFencedCodeBlock, func(w util.BufWriter, source []byte, n gast.Node, entering bool) (gast.WalkStatus, error) {
+		if m, ok := w.(checkedMarker); ok {
+			m.checked(1)
+			defer m.checked(-1)
+		}
 		if !entering {
 			_, err := w.WriteString("</code></pre>\n")
 			return gast.WalkContinue, err
@@ -506,6 +514,10 @@ func (errPropRenderer) RegisterFuncs(reg renderer.NodeRendererFuncRegisterer) {
 		return gast.WalkContinue, nil
 	})
 	reg.Register(gast.KindEmphasis, func(w util.BufWriter, source []byte, n gast.Node, entering bool) (gast.WalkStatus, error) {
+		if m, ok := w.(checkedMarker); ok {
+			m.checked(1)
+			defer m.checked(-1)
+		}
 		tag := "em"
 		if n.(*gast.Emphasis).Level == 2 {
 			tag = "strong"
